@@ -24,18 +24,25 @@ VARIABLES i,
           M,        \* [lane -> [key -> value | -1]]        the lane's map
           Hk,       \* [lane -> [key -> Seq(value | -1)]]   every value each key held
           clears,   \* [lane -> Seq([key -> position in Hk of that clear])]
-          open, pend, lp, lastClear, replica, full, synced, win, adm, alive,
+          open, lp, lastClear, replica, full, synced, win, adm, alive,
           td,       \* [lane -> <<>> | <<expected map>>]    outstanding take/drop expectation
           sfresh,   \* [r][l] the outstanding sync was requested while r was neither linked nor linking
           wupd,     \* [r][l] keys updated by the lane since the sync window opened
           f5,       \* [r][l] keys excused as missing by known finding F5 (until r receives them)
           swin,     \* [r][l] keys for which r received an operation while its sync was outstanding
           nclr,     \* [l] what the runtime has handed to the store for the lane = the fold of the lane events it has processed
-          unl,      \* [r][l] an unlink request was sent since the link was opened
-          nmin,     \* [r][l] <<>> or <<[key -> position], clear count>> remembered when a link / sync request was sent after
-                    \*        that unlink request while the old link was still open in the log
-          late      \* [r][l] 1 if the lane had a backlog of events (performed, not yet processed by the runtime) when r's sync was requested
-vars == <<i, M, Hk, clears, open, pend, lp, lastClear, replica, full, synced, win, adm, alive, td, sfresh, wupd, f5, swin, nclr, late, unl, nmin>>
+          late,     \* [r][l] 1 if the lane had a backlog of events (performed, not yet processed by the runtime) when r's sync was requested
+          \* What the log does not show: how far the runtime has got with r's requests.  link / unlink requests go to
+          \* the write task in order; a sync request goes to the lane and links r (implicitly) whenever the lane's
+          \* answer reaches the write task - before or after later link / unlink requests of r.  TLC infers it.
+          cq,       \* [r][l] link / unlink requests not yet processed: Seq([op, pos]); pos = where the lane was when sent
+          sq,       \* [r][l] sync requests whose synced has not been read: Seq([pos])
+          rlk,      \* [r][l] the runtime holds r linked
+          fq,       \* [r][l] linked / unlinked frames the runtime has produced and r has not read: Seq([k, pos])
+          stopping, \* the agent is being stopped (every link is closed without having been asked)
+          kf        \* known-finding deviations taken on this path
+hid == <<cq, sq, rlk, fq>>
+vars == <<i, M, Hk, clears, open, lp, lastClear, replica, full, synced, win, adm, alive, td, sfresh, wupd, f5, swin, nclr, late, cq, sq, rlk, fq, stopping, kf>>
 
 Has(e, f) == f \in DOMAIN e
 Max(a, b) == IF a > b THEN a ELSE b
@@ -48,28 +55,33 @@ Rank(m, k) == Cardinality({j \in Keys : m[j] # -1 /\ j < k})
 TakeOf(m, n) == [k \in Keys |-> IF m[k] # -1 /\ Rank(m, k) < n THEN m[k] ELSE -1]
 DropOf(m, n) == [k \in Keys |-> IF m[k] # -1 /\ Rank(m, k) >= n THEN m[k] ELSE -1]
 
+\* where lane l is now: <<[key -> position in Hk], number of clears>>
+CurPos(l) == <<[k \in Keys |-> Len(Hk[l][k])], Len(clears[l])>>
+
 StateFrom(maps) ==
     /\ M' = [l \in MLanes |-> [k \in Keys |-> maps[l][k]]]
     /\ Hk' = [l \in MLanes |-> [k \in Keys |-> <<maps[l][k]>>]]
     /\ clears' = [l \in MLanes |-> <<>>]
-    /\ open' = RL(FALSE) /\ pend' = RL(FALSE) /\ lp' = RL([k \in Keys |-> 1]) /\ lastClear' = RL(0)
+    /\ open' = RL(FALSE) /\ lp' = RL([k \in Keys |-> 1]) /\ lastClear' = RL(0)
     /\ replica' = RL(Empty) /\ full' = RL(FALSE) /\ synced' = RL(FALSE) /\ win' = RL(0)
     /\ adm' = RL([k \in Keys |-> {}]) /\ alive' = [r \in Remotes |-> TRUE]
     /\ td' = [l \in MLanes |-> <<>>]
     /\ sfresh' = RL(FALSE) /\ wupd' = RL({}) /\ f5' = RL({}) /\ swin' = RL({})
-    /\ nclr' = [l \in MLanes |-> Empty] /\ late' = RL(0) /\ unl' = RL(FALSE) /\ nmin' = RL(<<>>)
+    /\ nclr' = [l \in MLanes |-> Empty] /\ late' = RL(0)
+    /\ cq' = RL(<<>>) /\ sq' = RL(<<>>) /\ rlk' = RL(FALSE) /\ fq' = RL(<<>>) /\ stopping' = FALSE
 
 TraceInit ==
     /\ i = 1
     /\ M = [l \in MLanes |-> Empty] /\ Hk = [l \in MLanes |-> [k \in Keys |-> <<-1>>]]
     /\ clears = [l \in MLanes |-> <<>>]
-    /\ open = RL(FALSE) /\ pend = RL(FALSE) /\ lp = RL([k \in Keys |-> 1]) /\ lastClear = RL(0)
+    /\ open = RL(FALSE) /\ lp = RL([k \in Keys |-> 1]) /\ lastClear = RL(0)
     /\ replica = RL(Empty) /\ full = RL(FALSE) /\ synced = RL(FALSE) /\ win = RL(0)
     /\ adm = RL([k \in Keys |-> {}]) /\ alive = [r \in Remotes |-> TRUE]
     /\ td = [l \in MLanes |-> <<>>]
     /\ sfresh = RL(FALSE) /\ wupd = RL({}) /\ f5 = RL({}) /\ swin = RL({})
-    /\ nclr = [l \in MLanes |-> Empty] /\ late = RL(0) /\ unl = RL(FALSE) /\ nmin = RL(<<>>)
-    /\ TLCSet(1, 1) /\ TLCSet(2, {})
+    /\ nclr = [l \in MLanes |-> Empty] /\ late = RL(0)
+    /\ cq = RL(<<>>) /\ sq = RL(<<>>) /\ rlk = RL(FALSE) /\ fq = RL(<<>>) /\ stopping = FALSE /\ kf = {}
+    /\ TLCSet(1, 1) /\ TLCSet(2, {}) /\ TLCSet(3, 0) /\ TLCSet(4, {})
 
 \* earliest position p >= from of sequence s holding v (0 if none)
 Match(s, from, v) ==
@@ -83,15 +95,40 @@ LaneSet(l, k, v) ==
     /\ adm' = [r \in Remotes |-> [x \in MLanes |->
                  IF x = l /\ win[r][x] > 0 THEN [adm[r][x] EXCEPT ![k] = @ \cup {v}] ELSE adm[r][x]]]
 
+Deviate(id) == kf' = kf \cup {id} /\ TLCSet(4, TLCGet(4) \cup {id})
+
+(***************************************************************************)
+(* Steps of the runtime that the log does not show.                        *)
+(***************************************************************************)
+\* the write task takes r's next link / unlink request: link always answers linked; unlink answers unlinked
+\* only if r is linked
+HCoord(r, l) ==
+    /\ cq[r][l] # <<>>
+    /\ LET h == Head(cq[r][l]) IN
+       /\ cq' = [cq EXCEPT ![r][l] = Tail(@)]
+       /\ IF h.op = "link"
+            THEN /\ rlk' = [rlk EXCEPT ![r][l] = TRUE]
+                 /\ fq' = [fq EXCEPT ![r][l] = Append(@, [k |-> "linked", pos |-> h.pos])]
+            ELSE /\ rlk' = [rlk EXCEPT ![r][l] = FALSE]
+                 /\ fq' = IF rlk[r][l] THEN [fq EXCEPT ![r][l] = Append(@, [k |-> "unlinked", pos |-> <<>>])] ELSE fq
+    /\ UNCHANGED sq
+\* the answer of the lane to a sync request of r reaches the write task while r is not linked: r is linked
+\* (the oldest outstanding sync gives the weakest bound on where the lane was)
+HSync(r, l) ==
+    /\ sq[r][l] # <<>> /\ ~rlk[r][l]
+    /\ rlk' = [rlk EXCEPT ![r][l] = TRUE]
+    /\ fq' = [fq EXCEPT ![r][l] = Append(@, [k |-> "linked", pos |-> Head(sq[r][l]).pos])]
+    /\ UNCHANGED <<cq, sq>>
+
 Step(e) ==
-    \/ /\ e.e = "reset" /\ StateFrom([l \in MLanes |-> Empty])
-    \/ /\ e.e = "init" /\ StateFrom(e.maps)
+    \/ /\ e.e = "reset" /\ StateFrom([l \in MLanes |-> Empty]) /\ UNCHANGED kf
+    \/ /\ e.e = "init" /\ StateFrom(e.maps) /\ UNCHANGED kf
     \/ /\ e.e = "op" /\ e.m \in {"upd", "rem"}
        /\ e.k \in Keys
        /\ LaneSet(e.lane, e.k, IF e.m = "upd" THEN e.v ELSE -1)
        /\ wupd' = [r \in Remotes |-> [x \in MLanes |->
                       IF x = e.lane /\ win[r][x] > 0 /\ e.m = "upd" THEN wupd[r][x] \cup {e.k} ELSE wupd[r][x]]]
-       /\ UNCHANGED <<clears, open, pend, lp, lastClear, replica, full, synced, win, alive, td, sfresh, f5, swin, nclr, late, unl, nmin>>
+       /\ UNCHANGED <<clears, open, lp, lastClear, replica, full, synced, win, alive, td, sfresh, f5, swin, nclr, late, hid, stopping, kf>>
     \/ /\ e.e = "op" /\ e.m = "clr"
        /\ LET l == e.lane IN
           /\ M' = [M EXCEPT ![l] = Empty]
@@ -100,42 +137,47 @@ Step(e) ==
           /\ nclr' = nclr
           /\ adm' = [r \in Remotes |-> [x \in MLanes |->
                        IF x = l /\ win[r][x] > 0 THEN [k \in Keys |-> adm[r][x][k] \cup {-1}] ELSE adm[r][x]]]
-       /\ UNCHANGED <<open, pend, lp, lastClear, replica, full, synced, win, alive, td, sfresh, wupd, f5, swin, late, unl, nmin>>
+       /\ UNCHANGED <<open, lp, lastClear, replica, full, synced, win, alive, td, sfresh, wupd, f5, swin, late, hid, stopping, kf>>
     \/ /\ e.e = "td"
        /\ td' = [td EXCEPT ![e.lane] = <<IF e.m = "take" THEN TakeOf(M[e.lane], e.n) ELSE DropOf(M[e.lane], e.n)>>]
-       /\ UNCHANGED <<M, Hk, clears, open, pend, lp, lastClear, replica, full, synced, win, adm, alive, sfresh, wupd, f5, swin, nclr, late, unl, nmin>>
-    \/ /\ e.e = "req" /\ e.op \in {"link", "sync"}
-       /\ LET r == e.r  l == e.lane  fresh == ~open[r][l] /\ ~pend[r][l] IN
-          /\ pend' = [pend EXCEPT ![r][l] = TRUE]
-          /\ lp' = IF fresh THEN [lp EXCEPT ![r][l] = [k \in Keys |-> Max(@[k], Len(Hk[l][k]))]] ELSE lp
-          /\ lastClear' = IF fresh THEN [lastClear EXCEPT ![r][l] = Max(@, Len(clears[l]))] ELSE lastClear
-          /\ IF e.op = "sync"
-               THEN /\ win' = [win EXCEPT ![r][l] = @ + 1]
-                    /\ adm' = [adm EXCEPT ![r][l] = IF win[r][l] = 0 THEN [k \in Keys |-> {M[l][k]}] ELSE @]
-               ELSE UNCHANGED <<win, adm>>
-          /\ sfresh' = IF e.op = "sync" /\ win[r][l] = 0 THEN [sfresh EXCEPT ![r][l] = fresh] ELSE sfresh
-          /\ wupd' = IF e.op = "sync" /\ win[r][l] = 0 THEN [wupd EXCEPT ![r][l] = {}] ELSE wupd
-          /\ swin' = IF e.op = "sync" /\ win[r][l] = 0 THEN [swin EXCEPT ![r][l] = {}] ELSE swin
-          /\ late' = IF e.op = "sync" /\ win[r][l] = 0 THEN [late EXCEPT ![r][l] = IF nclr[l] # M[l] THEN 1 ELSE 0] ELSE late
-          \* a request sent after an unlink request, while the old link is still open in the log, starts the
-          \* NEXT episode: remember where the lane was
-          /\ nmin' = IF open[r][l] /\ unl[r][l] /\ nmin[r][l] = <<>>
-                        THEN [nmin EXCEPT ![r][l] = <<[k \in Keys |-> Len(Hk[l][k])], Len(clears[l])>>] ELSE nmin
-       /\ UNCHANGED <<M, Hk, clears, open, replica, full, synced, alive, td, f5, nclr, unl>>
+       /\ UNCHANGED <<M, Hk, clears, open, lp, lastClear, replica, full, synced, win, adm, alive, sfresh, wupd, f5, swin, nclr, late, hid, stopping, kf>>
+    \/ /\ e.e = "req" /\ e.op = "link"
+       /\ cq' = [cq EXCEPT ![e.r][e.lane] = Append(@, [op |-> "link", pos |-> CurPos(e.lane)])]
+       /\ UNCHANGED <<M, Hk, clears, open, lp, lastClear, replica, full, synced, win, adm, alive, td, sfresh, wupd, f5, swin, nclr, late, sq, rlk, fq, stopping, kf>>
+    \/ /\ e.e = "req" /\ e.op = "sync"
+       /\ LET r == e.r  l == e.lane
+              \* r is neither linked nor about to be when it asks for the sync
+              fresh == /\ ~open[r][l] /\ ~rlk[r][l] /\ sq[r][l] = <<>> /\ fq[r][l] = <<>>
+                       /\ \A j \in 1..Len(cq[r][l]) : cq[r][l][j].op # "link"
+              first == win[r][l] = 0 IN
+          /\ sq' = [sq EXCEPT ![r][l] = Append(@, [pos |-> CurPos(l)])]
+          /\ win' = [win EXCEPT ![r][l] = @ + 1]
+          /\ adm' = [adm EXCEPT ![r][l] = IF first THEN [k \in Keys |-> {M[l][k]}] ELSE @]
+          /\ sfresh' = IF first THEN [sfresh EXCEPT ![r][l] = fresh] ELSE sfresh
+          /\ wupd' = IF first THEN [wupd EXCEPT ![r][l] = {}] ELSE wupd
+          /\ swin' = IF first THEN [swin EXCEPT ![r][l] = {}] ELSE swin
+          /\ late' = IF first THEN [late EXCEPT ![r][l] = IF nclr[l] # M[l] THEN 1 ELSE 0] ELSE late
+       /\ UNCHANGED <<M, Hk, clears, open, lp, lastClear, replica, full, synced, alive, td, f5, nclr, cq, rlk, fq, stopping, kf>>
     \/ /\ e.e = "req" /\ e.op = "unlink"
-       /\ unl' = [unl EXCEPT ![e.r][e.lane] = TRUE]
-       /\ UNCHANGED <<M, Hk, clears, open, pend, lp, lastClear, replica, full, synced, win, adm, alive, td, sfresh, wupd, f5, swin, nclr, late, nmin>>
+       /\ cq' = [cq EXCEPT ![e.r][e.lane] = Append(@, [op |-> "unlink", pos |-> <<>>])]
+       /\ UNCHANGED <<M, Hk, clears, open, lp, lastClear, replica, full, synced, win, adm, alive, td, sfresh, wupd, f5, swin, nclr, late, sq, rlk, fq, stopping, kf>>
     \/ /\ e.e = "frame" /\ e.kind = "linked"
        /\ LET r == e.r  l == e.lane IN
+          /\ fq[r][l] # <<>> /\ Head(fq[r][l]).k = "linked"
+          /\ fq' = [fq EXCEPT ![r][l] = Tail(@)]
           /\ open' = [open EXCEPT ![r][l] = TRUE]
-          /\ IF open[r][l] THEN UNCHANGED <<replica, full>>
-             ELSE /\ replica' = [replica EXCEPT ![r][l] = Empty]
+          /\ IF open[r][l] THEN UNCHANGED <<replica, full, lp, lastClear>>
+             ELSE LET p == Head(fq[r][l]).pos IN
+                  \* a new episode: nothing older than what the lane held when the request that opened it was sent
+                  /\ lp' = [lp EXCEPT ![r][l] = [k \in Keys |-> Max(@[k], p[1][k])]]
+                  /\ lastClear' = [lastClear EXCEPT ![r][l] = Max(@, p[2])]
+                  /\ replica' = [replica EXCEPT ![r][l] = Empty]
                   \* a remote that links while the map is empty needs no sync to have the full state
                   /\ full' = [full EXCEPT ![r][l] = (M[l] = Empty)]
-       /\ UNCHANGED <<M, Hk, clears, pend, lp, lastClear, synced, win, adm, alive, td, sfresh, wupd, f5, swin, nclr, late, unl, nmin>>
+       /\ UNCHANGED <<M, Hk, clears, synced, win, adm, alive, td, sfresh, wupd, f5, swin, nclr, late, cq, sq, rlk, stopping, kf>>
     \/ /\ e.e = "frame" /\ e.kind = "event"
        /\ LET r == e.r  l == e.lane IN
-          IF ~open[r][l] THEN UNCHANGED <<lp, lastClear, replica, f5, swin, nclr, late, unl, nmin>>     \* outside a link: C04's business
+          IF ~open[r][l] THEN UNCHANGED <<lp, lastClear, replica, f5, swin, kf>>     \* outside a link: C04's business
           ELSE
             /\ ~Has(e, "bad")
             /\ \/ /\ e.m \in {"upd", "rem"} /\ e.k \in Keys
@@ -147,7 +189,7 @@ Step(e) ==
                      /\ replica' = [replica EXCEPT ![r][l][e.k] = v]
                   /\ f5' = [f5 EXCEPT ![r][l] = @ \ {e.k}]
                   /\ swin' = IF win[r][l] > 0 THEN [swin EXCEPT ![r][l] = @ \cup {e.k}] ELSE swin
-                  /\ UNCHANGED lastClear
+                  /\ UNCHANGED <<lastClear, kf>>
                \/ /\ e.m = "clr"
                   /\ LET C == {c \in (lastClear[r][l] + 1)..Len(clears[l]) :
                                   \A k \in Keys : clears[l][c][k] >= lp[r][l][k]}
@@ -161,15 +203,16 @@ Step(e) ==
                        THEN LET c == CHOOSE c \in C : \A d \in C : c <= d IN    \* a clear the lane performed,
                             /\ lastClear' = [lastClear EXCEPT ![r][l] = c]       \* not overtaken by a newer update
                             /\ lp' = [lp EXCEPT ![r][l] = [k \in Keys |-> clears[l][c][k]]]
+                            /\ UNCHANGED kf
                        ELSE /\ "F12" \in EnabledFindings /\ win[r][l] > 0 /\ C12 # {}
                             /\ LET c == CHOOSE c \in C12 : \A d \in C12 : c <= d IN
                                /\ lastClear' = [lastClear EXCEPT ![r][l] = c]
                                /\ lp' = [lp EXCEPT ![r][l] = [k \in Keys |-> Max(lp[r][l][k], clears[l][c][k])]]
-                            /\ TLCSet(2, TLCGet(2) \cup {"F12"})
+                            /\ Deviate("F12")
                   /\ replica' = [replica EXCEPT ![r][l] = Empty]
                   /\ f5' = [f5 EXCEPT ![r][l] = {}]
                   /\ swin' = swin
-       /\ UNCHANGED <<M, Hk, clears, open, pend, full, synced, win, adm, alive, td, sfresh, wupd, nclr, late, unl, nmin>>
+       /\ UNCHANGED <<M, Hk, clears, open, full, synced, win, adm, alive, td, sfresh, wupd, nclr, late, hid, stopping>>
     \/ /\ e.e = "frame" /\ e.kind = "synced"
        /\ LET r == e.r  l == e.lane IN
           /\ LET Bad == IF open[r][l] /\ win[r][l] > 0
@@ -193,48 +236,69 @@ Step(e) ==
              /\ f5' = [f5 EXCEPT ![r][l] = @ \cup Excused \cup
                           (IF "F5" \in EnabledFindings /\ open[r][l] /\ win[r][l] > 0 /\ sfresh[r][l]
                              THEN {k \in wupd[r][l] : replica[r][l][k] = -1} ELSE {})]
-             /\ (Excused # {} => TLCSet(2, TLCGet(2) \cup
-                                   (IF \E k \in Excused : sfresh[r][l] /\ k \in wupd[r][l] /\ "F5" \in EnabledFindings THEN {"F5"} ELSE {"F12"})))
+             /\ IF Excused # {}
+                  THEN Deviate(IF \E k \in Excused : sfresh[r][l] /\ k \in wupd[r][l] /\ "F5" \in EnabledFindings THEN "F5" ELSE "F12")
+                  ELSE UNCHANGED kf
           /\ synced' = [synced EXCEPT ![r][l] = TRUE]
           /\ full' = IF open[r][l] /\ win[r][l] > 0 THEN [full EXCEPT ![r][l] = TRUE] ELSE full
           /\ win' = [win EXCEPT ![r][l] = IF @ > 0 THEN @ - 1 ELSE 0]
-       /\ UNCHANGED <<M, Hk, clears, open, pend, lp, lastClear, replica, adm, alive, td, sfresh, wupd, swin, nclr, late, unl, nmin>>
+          /\ sq' = [sq EXCEPT ![r][l] = IF @ # <<>> THEN Tail(@) ELSE @]     \* the oldest outstanding sync is answered
+       /\ UNCHANGED <<M, Hk, clears, open, lp, lastClear, replica, adm, alive, td, sfresh, wupd, swin, nclr, late, cq, rlk, fq, stopping>>
     \/ /\ e.e = "frame" /\ e.kind = "unlinked"
        /\ LET r == e.r  l == e.lane IN
+          /\ IF fq[r][l] # <<>>
+               THEN /\ Head(fq[r][l]).k = "unlinked"              \* the answer to an unlink request
+                    /\ fq' = [fq EXCEPT ![r][l] = Tail(@)]
+                    /\ UNCHANGED <<cq, sq, rlk>>
+               ELSE /\ stopping                                   \* the agent stops: every link is closed
+                    /\ cq' = [cq EXCEPT ![r][l] = <<>>] /\ sq' = [sq EXCEPT ![r][l] = <<>>]
+                    /\ rlk' = [rlk EXCEPT ![r][l] = FALSE] /\ UNCHANGED fq
           /\ open' = [open EXCEPT ![r][l] = FALSE]
-          /\ pend' = [pend EXCEPT ![r][l] = (nmin[r][l] # <<>>)]
-          /\ lp' = IF nmin[r][l] # <<>> THEN [lp EXCEPT ![r][l] = [k \in Keys |-> Max(@[k], nmin[r][l][1][k])]] ELSE lp
-          /\ lastClear' = IF nmin[r][l] # <<>> THEN [lastClear EXCEPT ![r][l] = Max(@, nmin[r][l][2])] ELSE lastClear
-          /\ unl' = [unl EXCEPT ![r][l] = FALSE]
-          /\ nmin' = [nmin EXCEPT ![r][l] = <<>>]
           /\ win' = win      \* a sync requested after the unlink request is answered after this frame
           /\ synced' = [synced EXCEPT ![r][l] = FALSE]
           /\ full' = [full EXCEPT ![r][l] = FALSE]
           /\ f5' = [f5 EXCEPT ![r][l] = {}]
           /\ swin' = [swin EXCEPT ![r][l] = {}]
-       /\ UNCHANGED <<M, Hk, clears, replica, adm, alive, td, sfresh, wupd, nclr, late>>
+       /\ UNCHANGED <<M, Hk, clears, lp, lastClear, replica, adm, alive, td, sfresh, wupd, nclr, late, stopping, kf>>
     \/ /\ e.e \in {"sclr", "supd", "srem"}       \* a store call: the runtime has processed that lane event
        /\ nclr' = [nclr EXCEPT ![e.lane] = IF e.e = "sclr" THEN Empty
                                            ELSE IF e.k \in Keys THEN [@ EXCEPT ![e.k] = IF e.e = "supd" THEN e.v ELSE -1] ELSE @]
-       /\ UNCHANGED <<M, Hk, clears, open, pend, lp, lastClear, replica, full, synced, win, adm, alive, td, sfresh, wupd, f5, swin, late, unl, nmin>>
+       /\ UNCHANGED <<M, Hk, clears, open, lp, lastClear, replica, full, synced, win, adm, alive, td, sfresh, wupd, f5, swin, late, hid, stopping, kf>>
     \/ /\ e.e = "mark"      \* some other request was sent (delimits the operations of a take / drop command)
-       /\ UNCHANGED <<M, Hk, clears, open, pend, lp, lastClear, replica, full, synced, win, adm, alive, td, sfresh, wupd, f5, swin, nclr, late, unl, nmin>>
+       /\ UNCHANGED <<M, Hk, clears, open, lp, lastClear, replica, full, synced, win, adm, alive, td, sfresh, wupd, f5, swin, nclr, late, hid, stopping, kf>>
+    \/ /\ e.e = "stopping"
+       /\ stopping' = TRUE
+       /\ UNCHANGED <<M, Hk, clears, open, lp, lastClear, replica, full, synced, win, adm, alive, td, sfresh, wupd, f5, swin, nclr, late, hid, kf>>
     \/ /\ e.e = "gone"
        /\ alive' = [alive EXCEPT ![e.r] = FALSE]
-       /\ UNCHANGED <<M, Hk, clears, open, pend, lp, lastClear, replica, full, synced, win, adm, td, sfresh, wupd, f5, swin, nclr, late, unl, nmin>>
+       /\ UNCHANGED <<M, Hk, clears, open, lp, lastClear, replica, full, synced, win, adm, td, sfresh, wupd, f5, swin, nclr, late, hid, stopping, kf>>
     \/ /\ e.e = "quiescent"
        \* convergence: a drained, linked remote that holds the full state holds exactly the lane's map
        /\ \A x \in 1..Len(e.drained) : \A l \in MLanes :
              LET r == e.drained[x] IN
              (alive[r] /\ open[r][l] /\ full[r][l]) =>
                 \A k \in Keys : \/ replica[r][l][k] = M[l][k]
-                                \/ (k \in f5[r][l] /\ replica[r][l][k] = -1 /\ TLCSet(2, TLCGet(2) \cup {"F5"}))
-       /\ UNCHANGED <<M, Hk, clears, open, pend, lp, lastClear, replica, full, synced, win, adm, alive, td, sfresh, wupd, f5, swin, nclr, late, unl, nmin>>
+                                \/ (k \in f5[r][l] /\ replica[r][l][k] = -1)
+       /\ IF \E x \in 1..Len(e.drained) : \E l \in MLanes : \E k \in Keys :
+                LET r == e.drained[x] IN alive[r] /\ open[r][l] /\ full[r][l] /\ replica[r][l][k] # M[l][k]
+            THEN Deviate("F5") ELSE UNCHANGED kf
+       \* nothing is in flight: every request of a drained remote has been dealt with
+       /\ LET D == {e.drained[x] : x \in 1..Len(e.drained)} IN
+          /\ cq' = [r \in Remotes |-> IF r \in D THEN [l \in MLanes |-> <<>>] ELSE cq[r]]
+          /\ sq' = [r \in Remotes |-> IF r \in D THEN [l \in MLanes |-> <<>>] ELSE sq[r]]
+          /\ fq' = [r \in Remotes |-> IF r \in D THEN [l \in MLanes |-> <<>>] ELSE fq[r]]
+          /\ rlk' = [r \in Remotes |-> IF r \in D THEN open[r] ELSE rlk[r]]
+       /\ UNCHANGED <<M, Hk, clears, open, lp, lastClear, replica, full, synced, win, adm, alive, td, sfresh, wupd, f5, swin, nclr, late, stopping>>
 
 \* a take / drop command has been processed once something other than its own lane operations is
 \* logged: the lane must then hold exactly the entries designated by the documented key order
 TDDue(e) == \E l \in MLanes : td[l] # <<>> /\ ~(e.e = "op" /\ e.lane = l)
 TDOk(e) == \A l \in MLanes : (td[l] # <<>> /\ ~(e.e = "op" /\ e.lane = l)) => M[l] = td[l][1]
+
+\* the known findings of an accepting path (the smallest set over the accepting paths)
+RecordKf(s) ==
+    IF TLCGet(3) = 0 THEN TLCSet(2, s) /\ TLCSet(3, 1)
+    ELSE IF Cardinality(s) < Cardinality(TLCGet(2)) THEN TLCSet(2, s) ELSE TRUE
 
 TraceNext ==
     /\ i <= Len(Rec)
@@ -242,15 +306,21 @@ TraceNext ==
        IF TDDue(e)
          THEN /\ TDOk(e)
               /\ td' = [l \in MLanes |-> IF ~(e.e = "op" /\ e.lane = l) THEN <<>> ELSE td[l]]
-              /\ UNCHANGED <<i, M, Hk, clears, open, pend, lp, lastClear, replica, full, synced, win, adm, alive, sfresh, wupd, f5, swin, nclr, late, unl, nmin>>
-         ELSE /\ Step(e)
-              /\ i' = i + 1
-              /\ TLCSet(1, Max(TLCGet(1), i + 1))
+              /\ UNCHANGED <<i, M, Hk, clears, open, lp, lastClear, replica, full, synced, win, adm, alive, sfresh, wupd, f5, swin, nclr, late, hid, stopping, kf>>
+         ELSE \/ \* a linked / unlinked frame that the runtime has yet to produce: it takes r's next request(s)
+                 /\ e.e = "frame" /\ e.kind \in {"linked", "unlinked"} /\ fq[e.r][e.lane] = <<>>
+                 /\ (HCoord(e.r, e.lane) \/ HSync(e.r, e.lane))
+                 /\ UNCHANGED <<i, M, Hk, clears, open, lp, lastClear, replica, full, synced, win, adm, alive, td, sfresh, wupd, f5, swin, nclr, late, stopping, kf>>
+              \/ /\ Step(e)
+                 /\ i' = i + 1
+                 /\ TLCSet(1, Max(TLCGet(1), i + 1))
+                 /\ (i + 1 = Len(Rec) + 1) => RecordKf(kf')
 
 TraceSpec == TraceInit /\ [][TraceNext]_vars
 
 TraceAccepted ==
     LET m == TLCGet(1) IN
-    /\ PrintT(<<"TRACE_RESULT", ToJson([accepted |-> (m = Len(Rec) + 1), matched |-> m - 1, total |-> Len(Rec), kf |-> TLCGet(2)])>>)
+    /\ PrintT(<<"TRACE_RESULT", ToJson([accepted |-> (m = Len(Rec) + 1), matched |-> m - 1, total |-> Len(Rec),
+                                        kf |-> IF m = Len(Rec) + 1 THEN TLCGet(2) ELSE TLCGet(4)])>>)
     /\ m = Len(Rec) + 1
 =============================================================================
